@@ -85,14 +85,18 @@ func Guard(o *Obs, f func()) (panicked bool) {
 // report on fd 3. Anything the code under test prints goes to stderr (a per-worker file that the
 // parent slices per case using the @@CASE markers).
 func WorkerMain(ch *Check) {
+	mb := ch.MemLimitMB
+	if mb == 0 {
+		mb = 6144
+	}
 	if !ch.Race {
-		mb := ch.MemLimitMB
-		if mb == 0 {
-			mb = 6144
-		}
 		lim := syscall.Rlimit{Cur: uint64(mb) << 20, Max: uint64(mb) << 20}
 		_ = syscall.Setrlimit(syscall.RLIMIT_AS, &lim)
 	}
+	// A soft limit well below the address-space limit: on a loaded machine the collector of a worker
+	// that allocates fast (70 kB codec states, large messages) may otherwise fall so far behind that
+	// the harness itself, not the code under test, runs into RLIMIT_AS.
+	debug.SetMemoryLimit(int64(mb) << 20 / 4)
 	log.SetOutput(os.Stderr)
 	log.SetFlags(0)
 	out := os.NewFile(3, "results")
